@@ -121,4 +121,45 @@ GetIDBFrom(m, q, id, i) ==
                ELSE GetIDBFrom(m, q, lc[1] + 1, i2 + w)
 
 GetIDB(m, q) == GetIDBFrom(m, q, 0, 0)
+
+\* ---- searchID, leftMost, rightMost on the stored form --------------------------------
+OnesUpTo(m, p) == LET r == Rank128B(m.inners, p) IN r[1] + r[2]     \* ones at positions <= p
+
+RECURSIVE LeftMostB(_, _)
+LeftMostB(m, id) ==
+  LET n == GetNodeB(m, id) IN IF ~n.inner THEN id ELSE LeftMostB(m, Rank128B(m.inners, n.from)[1] + 1)
+RECURSIVE RightMostB(_, _)
+RightMostB(m, id) ==
+  LET n == GetNodeB(m, id) IN IF ~n.inner THEN id ELSE RightMostB(m, OnesUpTo(m, n.to - 1))
+
+\* the descent; returns <<l, eq, r>> before rightMost/leftMost, ids 0-based, -1 none
+RECURSIVE SearchBFrom(_, _, _, _, _, _)
+SearchBFrom(m, q, id, i, L, R) ==
+  LET n == GetNodeB(m, id) IN
+  IF ~n.inner
+  THEN LET tail == IF m.lp.present THEN LeafTailB(m, n.ithLeaf) ELSE <<>>
+           r == IF m.lp.present THEN Cmp(TailFrom(q, i), tail) ELSE 0 IN
+       IF r < 0 THEN <<L, -1, id>> ELSE IF r > 0 THEN <<id, -1, R>> ELSE <<L, id, R>>
+  ELSE
+    LET pre == IF n.hasPrefix THEN CmpPrefixB(q, i, n.prefix) ELSE 0
+        i2  == IF n.hasPrefix THEN (i - (i % 2)) + PrefixLenNibs(n.prefix) ELSE i + n.step
+        w   == IF n.big THEN 2 ELSE 1
+    IN IF pre < 0 THEN <<L, -1, id>>
+       ELSE IF pre > 0 THEN <<id, -1, R>>
+       ELSE IF i2 > NibLen(q) THEN <<L, -1, id>>
+       ELSE
+         LET c  == Label(q, i2, w)
+             lc == LeftChildB(m, n, c)
+             ch == lc[1] + lc[2]
+             lmost == Rank128B(m.inners, n.from)[1] + 1
+             rmost == OnesUpTo(m, n.to - 1)
+             L2 == IF lc[1] >= lmost /\ lc[1] <= rmost THEN lc[1] ELSE L
+             R2 == IF ch + 1 >= lmost /\ ch + 1 <= rmost THEN ch + 1 ELSE R
+         IN IF lc[2] = 0 THEN <<L2, -1, R2>>
+            ELSE IF i2 = NibLen(q) THEN <<L2, ch, R2>>       \* the empty-label leaf: no tail
+            ELSE SearchBFrom(m, q, ch, i2 + w, L2, R2)
+
+SearchIDB(m, q) ==
+  LET r == SearchBFrom(m, q, 0, 0, -1, -1) IN
+  << IF r[1] = -1 THEN -1 ELSE RightMostB(m, r[1]), r[2], IF r[3] = -1 THEN -1 ELSE LeftMostB(m, r[3]) >>
 =============================================================================
